@@ -214,6 +214,12 @@ class History:
         self.name = case["input_name"]
         self.world = {self.name: copy.deepcopy(case["content"])}
         vfy.materialise(self.world, self.S)
+        if case.get("via_link"):
+            # the input is a symbolic link to the content, which lives under another name (`current -> payload-2024`), followed with
+            # --follow-symlinks: torrent name and default locations belong to the name the input was GIVEN by (added after seeded
+            # change C02-18: the name was taken from the canonicalised root, so the fresh torrent looked for `payload-2024` next to it)
+            os.rename(os.path.join(self.S, self.name), os.path.join(self.S, b"payload-2024-target"))
+            os.symlink(b"payload-2024-target", os.path.join(self.S, self.name))
         os.mkdir(os.path.join(self.S, b"out"))
         self.inp_abs = os.path.join(self.S, self.name)
         st = case["input_style"]
@@ -239,6 +245,8 @@ class History:
         a = ["torrent", "create", "--input", os.fsdecode(self.arg), "--piece-length", str(c["p"])] + CREATE_FLAGS
         if c["md5"]:
             a.append("--md5")
+        if c.get("via_link"):
+            a.append("--follow-symlinks")
         if c["layout"] == "name":
             a += ["--name", os.fsdecode(c["new_name"])]
         if c["layout"] == "output":
@@ -593,6 +601,13 @@ def gen_content(r, p, single, flavour):
         sizes[-1] = r.randint(1, max(pp - 1, 1))         # the file sorted last lies wholly inside the last, partial piece
         if n > 1 and sum(sizes[:-1]) % pp == 0:
             sizes[0] += 1 if pp > 1 else 0
+    if n > 1 and r.random() < 0.3:
+        # identical files (same bytes, same MD5, same length) listed apart: each copy is judged on its own bytes (added after seeded
+        # change C02-19: an intact earlier copy vouched for an edited later one)
+        sizes = [max(sizes[0], 1)] * n if r.random() < 0.5 else [max(sizes[0], 1), max(sizes[0], 1)] + sizes[2:]
+        same_bytes = r.randbytes(sizes[0])
+    else:
+        same_bytes = None
     tree = {}
     for i in range(n):
         d = r.choice([[], [], [b"d1"], [b"d2"], [b"d1", b"deep"]])
@@ -606,7 +621,7 @@ def gen_content(r, p, single, flavour):
                                        "e\u0301".encode(), "\u2126".encode(), "\u1112\u1161\u11ab".encode(), "u\u0308.bin".encode()])
         if d and r.random() < 0.25:
             d = d[:-1] + [d[-1] + r.choice(["a\u030a".encode(), "\u212b".encode()])]
-        vfy.tree_set(tree, d + [leaf], r.randbytes(sizes[i]))
+        vfy.tree_set(tree, d + [leaf], same_bytes if same_bytes is not None and sizes[i] == len(same_bytes) else r.randbytes(sizes[i]))
     return tree
 
 
@@ -686,6 +701,8 @@ def gen_case(r, idx):
     case = {"tag": flavour + ("/single" if single else "/multi"), "seed": r.randrange(1 << 24), "input_name": name,
             "content": content, "p": p, "md5": r.random() < 0.5, "layout": layout, "input_style": style,
             "verify_style": r.choice(["rel", "rel", "abs"]), "new_name": r.choice([b"renamed", b"other name"]), "ops": []}
+    if not single and flavour != "malformed" and style in ("plain", "dot-slash", "abs", "trailing") and r.random() < 0.15:
+        case["via_link"] = True
     # simulate to choose edits that apply
     world = {name: copy.deepcopy(content)}
     undo, counter = [], [0]
